@@ -208,6 +208,22 @@ Definition spec_val (inp : rin) (op : rop) : rval :=
   | Osmiles => match spec_smarts inp with Some s => Vstrs (map last_part s) | None => Vraise end
   end.
 
+(** the hypothesis of the capstone theorem (proof/C03_Capstone.v, its_list_sound), evaluated on every scripted case: the
+    matcher's answers for one kept mapping are valid matches — on the direct route the mapping itself on the substrate, on
+    the expanded route every re-match on the hydrogen-expanded substrate (which must be well formed) *)
+Definition call_okb (flag : bool) (host : hostg) (rc : its) (c : call) : bool :=
+  if flag then
+    match snd c with
+    | Some rs => let hb := h_to_explicit host (map snd (fst c)) in wf_hostb hb && forallb (match_rcb hb rc) rs
+    | None => true
+    end
+  else match_rcb host rc (fst c).
+Definition hyps_okb (inp : rin) : bool :=
+  match i_rule inp with
+  | Some (rc, l, _) => wf_hostb (i_host inp) && wf_rcb rc && forallb (call_okb (has_XH l) (i_host inp) rc) (i_calls inp)
+  | None => true
+  end.
+
 (** ** observables *)
 Definition tstr_b (s : str) : tok := tlist tN s.
 (** a final ITS graph is compared through the atoms it shares with its glued predecessor (new H atoms get ids in the
@@ -259,4 +275,4 @@ Definition run_reads (invert implicit_temp explicit_stage synrule_obj : bool) (h
   (* "old" atoms of the i-th result = the atoms of the i-th glued graph (everything that is not created by _explicit_h);
      the harness restricts to the same sets *)
   let olds := map (fun gt : its * list (list N) => node_ids (fst gt)) (spec_glued inp) in
-  tlist (trval olds) (run_ops inp rs0 (map op_of ops)).
+  L [tlist (trval olds) (run_ops inp rs0 (map op_of ops)); tbool (hyps_okb inp)].
